@@ -31,7 +31,13 @@ def obligations():
         Obl("C13.kernel.3atoms_groups", "py", H, "check_sasa", enc, "3 atoms in 2 groups, first unselected", "groups + mask together", 1500, params={"n_atoms": 3, "n_points": 2, "mapping": "residue", "mask": "rest", "max_paths": 20000}, tiers=("thorough",)),
         Obl("C13.python.bookkeeping", "xh", "harness.c13_py", "bookkeeping", ["mdtraj.geometry.sasa.shrake_rupley"], "5 atoms in 3 residues; mode x every atom subset x probe in {0,.1,.2,.3} x change_radii x get_mapping",
             "radii, mask and mapping handed to the kernel; residue mode = sum over selected atoms; -1 for unselected atoms and residues without selected atoms; kept values unchanged by subsetting", 600,
-            quick_pre="probe10 <= 1 and not get_mapping", timeout_thorough=2400),
+            pre="not two_chains and not primed", quick_pre="probe10 <= 1 and not get_mapping", timeout_thorough=2400),
+        Obl("C13.python.bookkeeping.two_chains", "xh", "harness.c13_py", "bookkeeping", ["mdtraj.geometry.sasa.shrake_rupley (residue mapping)"], "the same 5 atoms with residues 1 and 2 in a SECOND chain; mode x change_radii x get_mapping x atom subsets",
+            "residue mode maps atoms to GLOBAL residue indices whatever the chain (per-chain numbering would fold chain 2 into chain 1)", 600,
+            pre="two_chains and not primed and probe10 == 0", quick_pre="(not use_idx) or (k0 and k3 and not k1)", timeout_thorough=1200),
+        Obl("C13.python.bookkeeping.history", "xh", "harness.c13_py", "bookkeeping", ["mdtraj.geometry.sasa.shrake_rupley (radii per call)"], "history: a first call on the same topology and probe radius with OTHER radii (an override, or the defaults), then the checked call",
+            "the radii of a call are the documented table plus THIS call's change_radii: nothing is remembered per topology", 600,
+            pre="primed and not two_chains and not use_idx and probe10 <= 1", timeout_thorough=1200),
     ]
     return o
 
